@@ -1,7 +1,7 @@
 """C09 — shape-based simplifications hold for every runtime binding of symbolic dims."""
 import re
 
-MODULES = ["contracts.c03_folding", "contracts.c09_expand"]
+MODULES = ["contracts.c03_folding", "contracts.c09_expand", "contracts.c05_basic"]
 HEAD = "import sys\nsys.path.insert(0, '/verif')\nfrom replay_lib.opt_native import main\n"
 
 
